@@ -124,6 +124,22 @@ class Target:
             self.fw = Forwarder(self.face, self.kind, ['200'], ctx, rng, S)
         return await asyncio.wait_for(self.app.register(form) if self.kind == 'v2' else self.app.register(form, None), 30)
 
+    async def register_bare_given_up(self, form, S, ctx, rng):
+        """The application gives an announcement up (asyncio.wait_for expires while the forwarder stays silent): attaching and detaching
+        handlers is not what register(name) without a handler does - given up or not."""
+        from .c17 import Forwarder
+        if getattr(self, 'fw', None) is None:
+            self.fw = Forwarder(self.face, self.kind, ['200'], ctx, rng, S)
+        self.fw.script = ['silence']
+        try:
+            await asyncio.wait_for(self.app.register(form) if self.kind == 'v2' else self.app.register(form, None), 0.003)
+        except BaseException as e:   # noqa
+            if isinstance(e, asyncio.CancelledError) and not isinstance(e, asyncio.TimeoutError):
+                pass
+        finally:
+            self.fw.script = ['200']
+        await asyncio.sleep(1.1)        # (the abandoned command has run out)
+
     async def unregister_bare(self, form, S, ctx, rng):
         """Current front-end: unregister(prefix) only withdraws the route at the forwarder; the handler stays attached (Interests
         may still arrive through a shorter registered prefix or after a later register())."""
@@ -300,6 +316,16 @@ def run_history(ctx, rng, kind, ops, label):
                         ctx.event('observation:bare-register-returned-false')
                 except Exception as e:   # noqa
                     res['viol'].append((f'bare-register-raises:{kind}:{type(e).__name__}', f'register() without a handler raised {e!r}', w))
+            elif op[0] == 'register-bare-given-up':
+                form, fl = form_of(rng, tuple(op[1]))
+                w['form'] = fl
+                try:
+                    await T.register_bare_given_up(form, S, ctx, rng)
+                    ctx.event('announcement-given-up-by-the-application')
+                    if tuple(op[1]) in attached:
+                        ctx.event('announcement-given-up-for-a-prefix-that-has-a-handler')
+                except Exception as e:   # noqa
+                    res['viol'].append((f'bare-register-raises:{kind}:{type(e).__name__}:given-up', f'{e!r}', w))
             elif op[0] == 'unregister-bare':
                 form, fl = form_of(rng, tuple(op[1]))
                 w['form'] = fl
@@ -815,6 +841,8 @@ def run(ctx):
             elif k < 0.44 and kind in ('v1', 'v2') and i % 2:
                 if kind == 'v2' and rng.random() < 0.5:
                     ops.append(('unregister-bare', rng.choice([p for p in PREFIXES if p])))
+                elif rng.random() < 0.4:
+                    ops.append(('register-bare-given-up', rng.choice([p for p in PREFIXES if p])))
                 else:
                     ops.append(('register-bare', rng.choice([p for p in PREFIXES if p])))
             elif k < 0.55:
@@ -845,6 +873,14 @@ def run(ctx):
             ops += [('interest', n) for n in (PREFIXES[2], PREFIXES[3], PREFIXES[1], INT_NAMES[7], PREFIXES[7])]
             ops += [('attach', PREFIXES[2]), ('interest', PREFIXES[2]), ('detach', PREFIXES[2]), ('interest', PREFIXES[2]), ('interest', PREFIXES[3])]
             run_history(ctx, rng, 'v2', ops, 'unregister-keeps-handler-template')
+    # an announcement for a prefix that already has a handler (attached separately) is given up by the application: the handler stays
+    for kind in ('v1', 'v2'):
+        for others in ((1, 3), (1,), ()):
+            ops = [('attach', PREFIXES[j]) for j in others + (2,)]
+            rng.shuffle(ops)
+            ops += [('interest', PREFIXES[3]), ('register-bare-given-up', PREFIXES[2])]
+            ops += [('interest', n) for n in (PREFIXES[2], PREFIXES[3], INT_NAMES[7])] + [('attach', PREFIXES[2]), ('interest', PREFIXES[3])]
+            run_history(ctx, rng, kind, ops, 'given-up-announcement-template')
     # several prefixes of the same (greatest) depth; one of them is detached, the others keep receiving
     D1, D2, D3 = (C(b'a'), C(b'b'), C(b'c'), C(b'g')), (C(b'a'), C(b'b'), C(b'c'), C(b'h')), (C(b'e'), C(b'f'), C(b'g'), C(b'h'))
     for kind in kinds:
@@ -859,7 +895,7 @@ def run(ctx):
         check_burst(ctx, rng)
     check_reply(ctx, rng)
     check_reentrant(ctx, rng)
-    for k in ('attach-of-a-falsy-callable-object', 'interest-whose-handler-raises', 'inside-handler:attach', 'inside-handler:detach', 'inside-handler:detach-self', 'inside-handler:attach-occupied'):
+    for k in ('announcement-given-up-for-a-prefix-that-has-a-handler', 'attach-of-a-falsy-callable-object', 'interest-whose-handler-raises', 'inside-handler:attach', 'inside-handler:detach', 'inside-handler:detach-self', 'inside-handler:attach-occupied'):
         ctx.need_event(k)
     for k in ('attach', 'detach', 'duplicate-attach', 'interest-hit', 'interest-miss', 'reply-sent', 'reply-late', 'attach-with-delivery-options',
               'reconnect-with-handlers-attached', 'register-without-handler-on-free-prefix', 'duplicate-route-declaration',
